@@ -4,12 +4,15 @@ the value as laid out in this process (sets/frozensets in iteration order) and i
 stdin : one JSON document per line  {"id": <str>, "spec": <spec>}
 stdout: one line per spec           <id> TAB <laid-out value text> TAB get_hash(v) TAB get_hash(data=serialize()) TAB
         backend.record_value(v) TAB Argument.value_hash TAB CallNode.value_hash of a real call ident(v) ("-" unless "sched")
-spec  : ["N"] ["T"] ["F"] ["i", n] ["s", str] ["b", hex] ["L", [..]] ["U", [..]] ["D", [[k, v], ..]]
+spec  : ["N"] ["T"] ["F"] ["i", n] ["f", float.hex()] ["s", str] ["b", hex] ["L", [..]] ["U", [..]] ["D", [[k, v], ..]]
         ["S", [..]] (elements are inserted in this order) ["FS", [..]] ["O", cls, [..]]
-argv  : <repo path>
+argv  : <repo path> [fwd | rev | even | odd | evenrev | oddrev]   order in which the specs are hashed / which half of
+        the spec indices is hashed at all (a process with another history)
 """
 import dataclasses
+import functools
 import json
+import struct
 import sys
 
 
@@ -30,7 +33,21 @@ class M2:
     b: object
 
 
-CLASSES = {"K1": K1, "K2": K2, "M2": M2}
+@dataclasses.dataclass
+class CP2:
+    """instance __dict__ gets two non-field entries (cached properties) once they are read"""
+    x: object
+
+    @functools.cached_property
+    def alpha_value(self):
+        return ("alpha", self.x)
+
+    @functools.cached_property
+    def beta_value(self):
+        return ("beta", self.x)
+
+
+CLASSES = {"K1": K1, "K2": K2, "M2": M2, "CP2": CP2}
 
 
 def build(sp):
@@ -43,6 +60,8 @@ def build(sp):
         return False
     if t == "i":
         return int(sp[1])
+    if t == "f":
+        return float.fromhex(sp[1])
     if t == "s":
         return str(sp[1])
     if t == "b":
@@ -61,7 +80,10 @@ def build(sp):
     if t == "FS":
         return frozenset([build(x) for x in sp[1]])
     if t == "O":
-        return CLASSES[sp[1]](*[build(x) for x in sp[2]])
+        obj = CLASSES[sp[1]](*[build(x) for x in sp[2]])
+        if sp[1] == "CP2":
+            obj.alpha_value, obj.beta_value
+        return obj
     raise ValueError(t)
 
 
@@ -73,6 +95,8 @@ def text(v):
         return "T" if v else "F"
     if t is int:
         return "i%d" % v
+    if t is float:
+        return "f" + struct.pack(">d", v).hex()
     if t is str:
         return "s" + v.encode("utf-8").hex()
     if t is bytes:
@@ -88,7 +112,8 @@ def text(v):
     if t is frozenset:
         return "(" + " ".join(["FS"] + [text(x) for x in v]) + ")"
     if t.__name__ in CLASSES:
-        return "(" + " ".join(["O", t.__name__] + [text(getattr(v, f.name)) for f in dataclasses.fields(v)]) + ")"
+        # what pickle writes for the instance: the values of __dict__ in __dict__ order (fields, then extras)
+        return "(" + " ".join(["O", t.__name__] + [text(x) for x in v.__dict__.values()]) + ")"
     raise TypeError(t)
 
 
@@ -117,11 +142,15 @@ def main():
     sched = None
     seen_jobs = set()
     out = []
-    for line in sys.stdin:
-        line = line.strip()
-        if not line:
-            continue
-        doc = json.loads(line)
+    # history: the order in which this process meets the values (and which ones it meets at all)
+    mode = sys.argv[2] if len(sys.argv) > 2 else "fwd"
+    docs = [json.loads(line) for line in sys.stdin if line.strip()]
+    if mode.startswith("even") or mode.startswith("odd"):
+        par = 0 if mode.startswith("even") else 1
+        docs = [d for d in docs if int(d["id"].split(".")[0]) % 2 == par]
+    if mode.endswith("rev"):
+        docs.reverse()
+    for doc in docs:
         v = build(doc["spec"])
         layout = text(v)
         try:                                    # TypeRegistry.get_hash(value)
